@@ -92,6 +92,17 @@ theorem index_by_class (s : Store) (root : Path) (es : List Entry)
   simp only [Store.uriForClass, hc]
   exact hr
 
+/-- **completeness**, both halves together: every `*.god` file under the root, at any depth
+    (`godFiles_iff`), has a record whose key is its path, and (unique stems) its class name in
+    any letter case leads to it -/
+theorem index_complete (s : Store) (root : Path) (es : List Entry)
+    (hu : StemsUnique norm (godFiles root es)) :
+    ∀ f ∈ godFiles root es,
+      ((index Cfg.current norm s root es).byPath f.path).isSome = true ∧
+      ∀ c : String, norm c = norm (stem f.name) →
+        (index Cfg.current norm s root es).uriForClass norm c = some f.path :=
+  fun f hf => ⟨index_complete_path norm Cfg.current s root es f hf, index_by_class norm s root es hu f hf⟩
+
 /-- letter case never matters for the class lookup -/
 theorem by_class_case (s : Store) (a b : String) (h : norm a = norm b) :
     s.uriForClass norm a = s.uriForClass norm b := by
